@@ -145,7 +145,32 @@ func vInternDefs() string {
 	for id, s := range vInternList {
 		sb.WriteString(fmt.Sprintf("Definition s%d : string := \"%s\".\n", id, strings.ReplaceAll(s, `"`, `""`)))
 	}
+	for id, t := range vTermList {
+		sb.WriteString(fmt.Sprintf("Definition t%d : %s := %s.\n", id, t[0], t[1]))
+	}
 	return sb.String()
+}
+
+// vTerm interns a closed Gallina term of the given type: the case files define
+// it once (Definition tN, after the strings) and the cases refer to it by name.
+// Used where the same sub-term is printed very many times (the memory and store
+// of a crew of some hundred machines after each of some hundred operations).
+var (
+	vTermIDs  = map[string]int{}
+	vTermList [][2]string
+)
+
+func vTerm(typ, term string) string {
+	vInternMu.Lock()
+	defer vInternMu.Unlock()
+	key := typ + "\x00" + term
+	if id, have := vTermIDs[key]; have {
+		return fmt.Sprintf("t%d", id)
+	}
+	id := len(vTermList)
+	vTermIDs[key] = id
+	vTermList = append(vTermList, [2]string{typ, term})
+	return fmt.Sprintf("t%d", id)
 }
 
 func vBool(b bool) string {
@@ -184,8 +209,13 @@ func vWriteJSON(sb *strings.Builder, x interface{}) {
 			sb.WriteString("jf")
 		}
 	case float64:
+		if math.IsNaN(v) {
+			// the model's marker for a value encoding/json refuses (coq/Model/MCrew.v, nan_marker)
+			sb.WriteString("(js " + vString(vNaNMarker) + ")")
+			return
+		}
 		q := v * 4
-		if q != math.Trunc(q) || math.Abs(q) > 1e15 || math.IsInf(v, 0) || math.IsNaN(v) {
+		if q != math.Trunc(q) || math.Abs(q) > 1e15 || math.IsInf(v, 0) {
 			sb.WriteString("(js " + vString("<unrep>") + ")")
 			return
 		}
@@ -196,6 +226,10 @@ func vWriteJSON(sb *strings.Builder, x interface{}) {
 			sb.WriteString(fmt.Sprintf("(jn %d)", z))
 		}
 	case string:
+		if v == vNaNMarker {
+			// a genuine string must never be taken for the NaN marker
+			v = "<unrep>"
+		}
 		sb.WriteString("(js " + vString(v) + ")")
 	case []interface{}:
 		sb.WriteString("(ja [")
@@ -256,6 +290,36 @@ func vCanon(x interface{}) (interface{}, bool) {
 		return nil, false
 	}
 	return y, true
+}
+
+// vNaNMarker stands for a float64 NaN: in operations (which are kept as JSON
+// for the replay files) and in the Gallina terms (the model has no NaN; Model/MCrew.v
+// calls a value unserialisable when it contains this marker).
+const vNaNMarker = "<NaN>"
+
+// vPoison replaces every marker string inside a JSON value by a real NaN (a copy;
+// what is submitted to the service under test).
+func vPoison(x interface{}) interface{} {
+	switch v := x.(type) {
+	case string:
+		if v == vNaNMarker {
+			return math.NaN()
+		}
+		return v
+	case []interface{}:
+		acc := make([]interface{}, len(v))
+		for i, y := range v {
+			acc[i] = vPoison(y)
+		}
+		return acc
+	case map[string]interface{}:
+		acc := make(map[string]interface{}, len(v))
+		for k, y := range v {
+			acc[k] = vPoison(y)
+		}
+		return acc
+	}
+	return x
 }
 
 // vSafe: the value itself when it can be serialised, the marker string otherwise
@@ -409,6 +473,16 @@ func vSpecFiles() map[string]string {
 		"rec":  "name: rec\n" + head + vMsgNode("start", "id", "note") + vActNode("note", "start"),
 		"flip": "name: flip\n" + head + vMsgNode("start", "id", "note1") + vActNode("note1", "alt") + vMsgNode("alt", "id", "note2") + vActNode("note2", "start"),
 		"deaf": "name: deaf\n" + head + vMsgNode("start", "wake", "note") + vActNode("note", "start"),
+		// nan: no action; keeps what it bound from the message, the value of "poison" included (a NaN there makes the end
+		// state impossible to serialise: the action-less path never canonicalises the bindings)
+		"nan": "name: nan\n" + head + `  start:
+    branching:
+      type: message
+      branches:
+      - pattern: |
+          {"id":"?id","fwd":"?fwd","poison":"?p"}
+        target: start
+`,
 		"broken": "name: broken\n" + head + `  start:
     action:
       interpreter: ecmascript
